@@ -54,7 +54,9 @@ ASTRONOMIC_OVERFLOW = re.compile(r"index-sized|ssize_t|size_t|too many digits|sh
 
 def known_key(texts, o):
     """Mechanism key of a listed finding, or None.  Keys are matched against known_findings.txt by the driver."""
-    if o.cls == "nonterm" or (o.cls == "internal" and o.exc_type == "DeferredCycle"):
+    if o.cls == "nonterm" or (o.cls == "internal" and o.exc_type == "DeferredCycle") or \
+            (o.cls == "internal" and o.exc_type == "RecursionError" and "__repr__" in (o.exc_where or "")):
+        # (third face of the same mechanism: the cyclic value is being PRINTED for a diagnostic and its repr() recurses)
         if definitional_cycle(texts):
             return "definitional-cycle"
     if o.cls == "internal" and (o.exc_type == "MemoryError" or
@@ -67,6 +69,37 @@ def known_key(texts, o):
 
 
 _CONFIRMED_NONTERM = [0]
+
+_UNMONITORED = r"""
+import json, resource, sys
+resource.setrlimit(resource.RLIMIT_AS, (4 << 30, 4 << 30))
+import pdpy11.bk_encoding
+from pdpy11 import parser, compiler, reports
+files = json.load(sys.stdin)
+try:
+    with reports.handle_reports(lambda *a: None):
+        asts = [parser.parse(n, t) for n, t in files]
+        compiler.Compiler(output_charset=sys.argv[1]).compile_and_link_files(asts)
+except reports.UnrecoverableError:
+    pass
+print("ENDED")
+"""
+
+
+def finishes_unmonitored(files, charset):
+    """Third stage for an input that exceeded the logical budget twice (1x, 40x): the plain assembler in a process of its own, no
+    instrumentation, 4 GiB, 15 minutes.  True only if it came to an end by itself (success or reported failure)."""
+    import json
+    import subprocess
+    import sys
+    env = dict(os.environ, PYTHONPATH=os.environ.get("VERIF_REPO", "/repo"))
+    env.pop("PDPY11_VERIF", None)
+    try:
+        r = subprocess.run([sys.executable, "-c", _UNMONITORED, charset], input=json.dumps([[n, t] for n, t in files]), capture_output=True, text=True,
+                           timeout=900, env=env, cwd=os.path.dirname(files[0][0]) if os.path.isdir(os.path.dirname(files[0][0])) else None)
+    except subprocess.TimeoutExpired:
+        return False
+    return r.returncode == 0 and r.stdout.strip().endswith("ENDED")
 
 
 def huge_repeat(o):
@@ -128,8 +161,20 @@ def run_shard(spec):
             big = any(re.search(r"(?i)\.?blk[bw]\s+(1777\d\d|6553\d|100000|77777)", t) for _, t in files)
             case = {"files": files, "handler": rnd.choice(["bare", "graphical", "record"]), "cli": (i % 100 == 0) or (bool(big) and i % 2 == 0), "root": root,
                     "wctl": rnd.choice(["everything", "everything", "default", "nothing", "ids-off", "ids-off"]), "wseed": rnd.randrange(1 << 30)}
-            vs, info = run_one(case, cnt)
-            res["violations"].extend(vs)
+            try:
+                vs, info = run_one(case, cnt)
+                res["violations"].extend(vs)
+            except MemoryError:
+                # an input that fills memory up to the worker's limit (the listed astronomic-integer finding) can leave so little room that
+                # the harness itself cannot go on before the cyclic garbage is collected: collect, count, go on with the next input
+                vs = info = None
+                import gc
+                gc.collect()
+                cnt["harness_memory_errors"] = cnt.get("harness_memory_errors", 0) + 1
+                continue
+            if info.get("site") and "MemoryError" in info["site"]:
+                import gc
+                gc.collect()
             res["evaluations"] += 1
             cnt["inputs"] += 1
             cnt[info["cls"]] += 1
@@ -309,6 +354,11 @@ def run_one(case, cnt):
         shown = []
         o2 = asm.assemble(files, budget=40 * budget, wall=900, handler=make_handler(case["handler"], rec, case, shown))
         o2.events = rec.events
+        if o2.cls == "nonterm" and finishes_unmonitored(files, case.get("charset", "bk")):
+            # a few hundred lazily sized statements can cost more than 40 budgets and still end (minutes): the same input, unmonitored,
+            # in a process of its own, came to an end by itself -> slow, not judged
+            o2.cls = "stall"
+            cnt["slow_but_terminating_unmonitored"] = cnt.get("slow_but_terminating_unmonitored", 0) + 1
         if o2.cls != "nonterm":
             cnt["slow_but_terminating"] = cnt.get("slow_but_terminating", 0) + 1
         else:
